@@ -77,7 +77,16 @@ func (rn *runner) familyFloors() {
 		"deadline:HandleReader": 8, "deadline:http": 4, "deadline:ws": 4, "real-table:v0_8:inputs": 100, "real-table:v0_9:inputs": 100,
 		"real-table:v0_10:inputs": 100, "validator:values": 1000, "f64:%f": 1000, "f64:%e": 1000, "pretty:caret": 3000,
 		"oracle:entry:call": 20000, "oracle:entry:notification": 5000, "oracle:bind:ok": 10000, "shadow:requests": 3000,
-		"concurrent:requests": 150, "output:has result": 2000}
+		"concurrent:requests": 150, "output:has result": 2000,
+		// round 4
+		"ptext:context-rows-3": 1000, "ptext:context-row-cut": 300, "ptext:line-cut-both-sides": 400, "ptext:line-cut-left": 1000,
+		"ptext:line-cut-right": 200, "ptext:no-caret": 10, "ptext:%q-of-non-ascii-rune": 400, "ptext:msg:unexpected trailing comma": 40,
+		"ptext:err-other": 10, "gate:op:a:queued": 100, "gate:op:a:busy": 50, "gate:op:x:ctxErr": 40, "gate:op:r:admitted": 20,
+		"gate:http:busy:post": 3, "gate:http:deadline:post": 2, "gate:http:client-gone": 2, "gate:http:admitted:post": 6,
+		"conn:request": 10, "conn:notification": 10, "conn:request-response-cannot-be-written": 10, "conn:ws-push": 8,
+		"ws-limit:c:0": 1, "ws-limit:c:1": 5, "ws-limit:u:1": 5, "register:ok": 100, "register:err:paramCount": 1000,
+		"register:err:returnCount": 500, "register:err:secondNotError": 40, "register:err:thirdNotError": 100,
+		"register:err:secondNotHeader": 50, "register:err:notFunc": 2, "register:list": 200}
 	counts := rn.res.Distribution
 	for k, min := range floors {
 		if counts[k] < min {
@@ -432,6 +441,7 @@ func (rn *runner) check(w *World, input []byte, answer string, tree *J, parses b
 	for _, c := range []string{"missing required params", "expected between", "missing non-optional param", "unexpected params",
 		"cannot unmarshal", "failed on the", "felt:", "empty batch", "batch requests are disabled", "unsupported RPC request version",
 		"no method specified", "params should be an array", "id should be a string", "exceeded max depth", "unexpected end of input",
+		"null is not a valid value for required param", "handler panicked", "unsupported value",
 		"unexpected trailing comma", "expected a JSON object"} {
 		if strings.Contains(string(o.Out), c) {
 			res.Hit("branch:" + c)
@@ -617,6 +627,8 @@ func main() {
 		part := part
 		jobs = append(jobs, job{fixedWorld(part == 3, 2), func(w *World) [][]byte { return parseErrorInputs(part, 4, f.Thorough()) }})
 	}
+	// 1a'. the text of parse-error answers: line widths, context rows, offending symbols (round 4)
+	jobs = append(jobs, job{fixedWorld(false, 2), func(w *World) [][]byte { return prettyTextInputs() }})
 	// 1b. handlers that return unmarshallable values or panic
 	for i, pool := range []int{1, 3} {
 		spec := faultyWorld(pool)
@@ -678,6 +690,11 @@ func main() {
 	rn.realTables()
 	rn.shadowTables(r.Fork(2718))
 	rn.validatorTie()
+	if w, err := NewWorld(fixedWorld(false, 2)); err == nil {
+		rn.readerFailures(w)
+	} else {
+		res.Fatalf("reader failure family: %v", err)
+	}
 	rn.floatTie(r.Fork(31337))
 	// 4. transports
 	{
@@ -691,12 +708,20 @@ func main() {
 		rn.transports(w, inputs)
 		rn.segmented(w, r.Fork(555), inputs)
 	}
+	// 4a. the admission gate of the HTTP transport (round 4)
+	waitLimit := rn.wsLimit() // runs beside the next stages (one refused connection costs 5 s inside the server)
+	rn.gateTie(r.Fork(4242))
+	// 4b. handlers that keep writing to their connection; the websocket connection limit (round 4)
+	rn.connTie()
+	// 4c. RegisterMethods on every handler signature shape (round 4)
+	rn.registerTie(r.Fork(8086))
 	// 5. request deadlines while batch entries queue for a pool slot
 	rn.deadlines(r.Fork(777))
 	// 6. handlers that fail, over the transports
 	rn.faultyTransports()
 	// 7. concurrent clients on one server (thorough: again under the race detector)
 	concurrentStage(res, f.Seed, f.Thorough())
+	waitLimit()
 	if f.Thorough() {
 		raceChild(res, f)
 	}
